@@ -242,6 +242,15 @@ func (n *refnode) Rmdir(ctx context.Context, name string) syscall.Errno {
 		return syscall.EINVAL
 	}
 	current, err := n.fs.layerManager.release(ctx, n.ref, targetDigest)
+	// The last release of an image also releases the other layers of that image (even if it reports an error
+	// for this one). Do not keep serving a layer that the manager doesn't hold anymore from the nodes created
+	// by earlier lookups.
+	for cname, cn := range n.Children() {
+		if ln, ok := cn.Operations().(*layernode); ok && n.fs.layerManager.getCachedLayer(n.ref, ln.digest) == nil {
+			cn.RmAllChildren()
+			n.RmChild(cname)
+		}
+	}
 	if err != nil {
 		log.G(ctx).WithError(err).Warnf("failed to release layer %v / %v", n.ref, targetDigest)
 		return syscall.EIO
